@@ -1,8 +1,8 @@
 (* C05: sjoin(left, right, how) returns exactly the intersecting (left, right) pairs. *)
 From Coq Require Import ZArith List Bool Arith String Permutation.
 From SP Require Import Model.Num Model.Arrow Model.Bounds Model.PointKernels Model.PointShape
-                       Model.Sjoin Spec.SjoinSpec
-                       Proofs.SjoinRows Proofs.SjoinPairs Proofs.SjoinCand Proofs.SjoinCols.
+                       Model.Sjoin Model.SjoinWf Spec.SjoinSpec
+                       Proofs.SjoinRows Proofs.SjoinPairs Proofs.SjoinCand Proofs.SjoinCols Proofs.SjoinBBox Proofs.SjoinArrayForm.
 Import ListNotations.
 Local Open Scope nat_scope.
 
@@ -28,6 +28,35 @@ Theorem C05_scan_is_an_index : forall a, wf_fixarr a = true ->
   cand_contract (fa_len a) (fa_bounds a) (scan_cand a).
 Proof. exact scan_cand_contract. Qed.
 Print Assumptions C05_scan_is_an_index.
+
+(* ---- an intersecting point lies in the shape's bounds row ---- *)
+
+(* For every shape kind of the C02 model: if Point.intersects(shape) holds for the point of
+   left row l, the box of that row is not outside the bounds row of the shape.  Guards
+   (executable, evaluated by the correspondence check on every real right geometry): the
+   scalar's offsets are non-decreasing, even and delimit flat_values; polygon rings are
+   closed. *)
+Theorem C05_intersects_implies_bbox : forall a sh,
+  wf_fixarr a = true -> shape_buffers_wf sh = true -> shape_rings_closed sh = true ->
+  hit_in_bbox a sh.
+Proof. exact hit_in_bbox_shape. Qed.
+Print Assumptions C05_intersects_implies_bbox.
+
+Theorem C05_good_right : forall a rgeoms,
+  wf_fixarr a = true -> right_wf rgeoms = true -> good_right a rgeoms.
+Proof. exact good_right_of_wf. Qed.
+Print Assumptions C05_good_right.
+
+(* the "closed rings" guard is needed: with an unclosed ring the winding number is non-zero
+   outside the bounds row, and the pair table misses an intersecting pair *)
+Theorem C05_unclosed_ring_refuted :
+  wf_fixarr far_point = true /\ shape_buffers_wf open_ring = true /\
+  shape_rings_closed open_ring = false /\
+  ~ hit_in_bbox far_point open_ring /\
+  intersecting far_point [Some open_ring] 0 0 /\
+  pair_table (scan_cand far_point) far_point [Some open_ring] = Some (Value []).
+Proof. exact unclosed_ring_refuted. Qed.
+Print Assumptions C05_unclosed_ring_refuted.
 
 (* ---- the merge chains ---- *)
 
@@ -88,6 +117,69 @@ Theorem C05_right : forall mrg cand ls rs lm rm a rgeoms res,
                 (map both ps ++ map (fun r => (None, Some r)) (unmatched_right (List.length rgeoms) ps)).
 Proof. intros mrg cand. exact (rows_exact_h mrg cand Right). Qed.
 Print Assumptions C05_right.
+
+(* all together: when sjoin returns a frame, its rows are, as a multiset, one row per
+   intersecting pair plus the unmatched rows [how] keeps -- under the pandas-merge contract,
+   the C03 contract on the index, the C02 contract on the array form, and the executable
+   guards on the right geometries (well-formed buffers, closed rings) *)
+Theorem C05_sjoin_exact : forall mrg cand h ls rs lm rm a rgeoms res,
+  merge_contract mrg ->
+  cand_contract (fa_len a) (fa_bounds a) (cand a) ->
+  array_form_contract a ->
+  right_wf rgeoms = true ->
+  sjoin mrg cand h ls rs lm rm a rgeoms = Some (inr res) ->
+  exists ps, pair_enum a rgeoms ps /\
+             Permutation (j_rows res) (expected_rows h (fa_len a) (List.length rgeoms) ps).
+Proof. exact sjoin_exact. Qed.
+Print Assumptions C05_sjoin_exact.
+
+(* the model the correspondence check evaluates is an instance *)
+Theorem C05_model_exact : forall h ls rs lm rm a rgeoms res,
+  array_form_contract a ->
+  right_wf rgeoms = true ->
+  sjoin merge_rel_op scan_cand h ls rs lm rm a rgeoms = Some (inr res) ->
+  exists ps, pair_enum a rgeoms ps /\
+             Permutation (j_rows res) (expected_rows h (fa_len a) (List.length rgeoms) ps).
+Proof. exact model_exact. Qed.
+Print Assumptions C05_model_exact.
+
+(* ---- the C02 contract, proved from Model/PointShape.v ---- *)
+
+(* PointArray.intersects(shape, inds) = [Point.intersects(shape) of element j, false for a
+   missing element | j in inds], whenever it returns *)
+Theorem C05_array_form : forall a, wf_fixarr a = true -> array_form_contract a.
+Proof. exact array_form. Qed.
+Print Assumptions C05_array_form.
+
+(* the pair table, with the index contract as only premise *)
+Theorem C05_pairs_exact_index_only : forall (cand : bbox -> list nat) a rgeoms ps,
+  wf_fixarr a = true ->
+  cand_contract (fa_len a) (fa_bounds a) cand ->
+  right_wf rgeoms = true ->
+  pair_table cand a rgeoms = Some (Value ps) ->
+  pair_enum a rgeoms ps.
+Proof. exact pairs_exact_closed. Qed.
+Print Assumptions C05_pairs_exact_index_only.
+
+(* sjoin, with the pandas-merge and index contracts as only premises *)
+Theorem C05_sjoin_exact_two_contracts : forall mrg cand h ls rs lm rm a rgeoms res,
+  merge_contract mrg ->
+  cand_contract (fa_len a) (fa_bounds a) (cand a) ->
+  right_wf rgeoms = true ->
+  sjoin mrg cand h ls rs lm rm a rgeoms = Some (inr res) ->
+  exists ps, pair_enum a rgeoms ps /\
+             Permutation (j_rows res) (expected_rows h (fa_len a) (List.length rgeoms) ps).
+Proof. exact sjoin_exact_two. Qed.
+Print Assumptions C05_sjoin_exact_two_contracts.
+
+(* the model the correspondence check evaluates: no premise but the guards *)
+Theorem C05_model_exact_closed : forall h ls rs lm rm a rgeoms res,
+  right_wf rgeoms = true ->
+  sjoin merge_rel_op scan_cand h ls rs lm rm a rgeoms = Some (inr res) ->
+  exists ps, pair_enum a rgeoms ps /\
+             Permutation (j_rows res) (expected_rows h (fa_len a) (List.length rgeoms) ps).
+Proof. exact model_exact_closed. Qed.
+Print Assumptions C05_model_exact_closed.
 
 (* what the expected rows are, row by row: no row twice; (l, r) iff a pair; (l, missing) iff
    how = left and l has no partner; (missing, r) iff how = right and r has no partner *)
